@@ -204,14 +204,18 @@ def eval_array_pressure(ctx, c):
                 fh.write('# layer pressure[%s]\n' % units)
                 for i, v in enumerate(arr):
                     fh.write('%d %s\n' % (i, repr(float(v / to_pa))))
-            pp = FilePressureProfile(fn, usecols=1, skiprows=1, units=units, reverse=rev)
+            pp = FilePressureProfile(fn, usecols=1, skiprows=1, units=units,
+                                     reverse=[rev, np.bool_(rev), int(rev)][(len(arr) + 1) % 3])
             ctx.bucket('pressure:file:' + units)
             if not C.close(np.asarray(pp.profile, float), prof, 1e-12):
                 ctx.violation('file-profile-changed', 'FilePressureProfile.profile is not the file column converted '
                               'to Pa', small, dict(profile=pp.profile, expected=prof))
             prof = np.asarray(pp.profile, float)
         else:
-            pp = ArrayPressureProfile(arr, reverse=rev)
+            # the flag as a caller computes it: a Python bool, a numpy bool (`P[0] < P[-1]`) or an integer 0/1
+            flag = [rev, np.bool_(rev), int(rev)][len(arr) % 3]
+            ctx.bucket('reverse-flag-type:' + type(flag).__name__)
+            pp = ArrayPressureProfile(arr, reverse=flag)
         pp.compute_pressure_profile()
     except Exception as e:
         if n < 2:
